@@ -52,6 +52,15 @@ StepEnc(e, sec, rx) ==
                  <<u.plain = e.plain, "a conformant receiver does not recover the submitted plain message">> >>),
             sec |-> nsec, rx |-> RxOf(nsec)]
 
+\* an authentication run in the middle of a context's life (re-authentication of a registered UE, a repeated challenge): the emulator's
+\* key derivation replaces the NAS keys at once (event Rekey carries the keys it left in the context), but the NAS COUNTs belong to the
+\* context in use and only a new context taken into use by a later message starts them again (TS 24.501 4.4.3.1, TS 33.501 6.4.3.1)
+StepRekey(e, sec, rx) ==
+   [r |-> FirstBad(<< <<e.ul = sec.ul, "an authentication run changed the uplink NAS COUNT of the context in use (" \o Str(sec.ul) \o " -> " \o Str(e.ul) \o ")">>,
+                      <<e.dl = sec.dl, "an authentication run changed the downlink NAS COUNT of the context in use (" \o Str(sec.dl) \o " -> " \o Str(e.dl) \o ")">> >>),
+    sec |-> [sec EXCEPT !.kEnc = e.kenc, !.kInt = e.kint, !.ul = e.ul, !.dl = e.dl],
+    rx |-> [rx EXCEPT !.kEnc = e.kenc, !.kInt = e.kint]]
+
 \* a send that is refused (no encoder for the message type, octets that are no NAS message): nothing goes out, no COUNT is consumed
 StepRefuse(e, sec, rx) ==
    [r |-> FirstBad(<< <<e.err /\ ~e.panic, "a message that cannot be encoded was not refused with an error">>,
@@ -96,6 +105,7 @@ Next == /\ l <= Len(Trace)
                            ELSE IF e.ev = "Dec" THEN StepDec(e, secs[c], rxs[c])
                            ELSE IF e.ev = "Count" THEN StepCount(e, secs[c], rxs[c])
                            ELSE IF e.ev = "Refuse" THEN StepRefuse(e, secs[c], rxs[c])
+                           ELSE IF e.ev = "Rekey" THEN StepRekey(e, secs[c], rxs[c])
                            ELSE IF e.ev = "Held" THEN [r |-> HeldVerdict(e), sec |-> secs[c], rx |-> rxs[c]]
                            ELSE [r |-> No("no action of the specification matches this event"), sec |-> secs[c], rx |-> rxs[c]]} :
                      /\ Report(l, e, s.r)
